@@ -68,7 +68,7 @@ func init() {
 			per, steps = 100, 45
 		}
 		rep.Rule = "seeded random command sequences on main and batch connections interleaved with losses of random subsets of L1's entries (single keys, triples, everything; for a chunked L1 single metadata or chunk entries) on every stack configuration; every reply is judged by the single-map specification, which knows no evictions (so replies with and without any eviction pattern coincide up to the order of a multi-get's answers); after every command the implementation's L1 is compared with its L2 directly: every key L1 serves must be served by L2 with equal value and flags; reply bytes, backend traces and contents are also compared with the Lean model; distinct = distinct (configuration, sequence) pairs in which a reply carried a value"
-		runSequences(rep, tier, seed+17, per, seqOpts{Steps: steps, MaxChunks: 3, Evict: 0.35, Advance: 0.1, TwoTier: true, Probe: inclusionProbe,
+		runSequences(rep, tier, seed+17, per, seqOpts{Steps: steps, MaxChunks: 3, Evict: 0.35, Advance: 0.1, TwoTier: true, Probe: inclusionProbe, Remnant: true,
 			ExtraCfgs: []StackCfg{{Orca: "l1l2", Locked: "none", Bits: 0, L1: "inmem"}, {Orca: "l1l2", Locked: "mr", Bits: 2, L1: "inmem"}}}, nil)
 	}
 }
